@@ -189,40 +189,46 @@ def _run_unit(scratch, u, obs, results, tier, jobs, log, extra_suffix=None):
     return text
 
 
-def vacuity_probe(scratch, unit_name, log=print):
-    """Thorough-tier guard: append `ensures false` to each contracted exec function, one at a time is too slow;
-    instead add a proof fn per contracted function that asserts its precondition is satisfiable is not
-    expressible generically, so we use the standard trick: verify a copy of the unit in which every
-    contracted function's header gets an extra `ensures false` and require that Verus REJECTS every one of them."""
+def vacuity_probe(scratch, unit_name, log=print, jobs=8):
+    """Thorough-tier guard against contradictory preconditions / invariants: for EACH contracted (non-external)
+    function of the unit, verify a copy of the unit in which only THAT function's header gets an extra
+    `ensures false`, and require that Verus REJECTS it. (One function per probe: strengthening a callee would make
+    every caller trivially verify.) Returns (vacuous_function_names, probed_names); (None, names) on tool failure."""
+    from concurrent.futures import ThreadPoolExecutor
     u = [x for x in X.load_units() if x.head["unit"] == unit_name][0]
     text, _ = X.build_unit(u, scratch.repo)
     fns = [f for f in u.fns if f.header.strip() and "ensures" in f.header and not f.external_body]
     names = [f.name.split("::")[-1] for f in fns]
-    probe = text
-    for f in fns:
-        # locate this function's spliced header text exactly (unique per function) and strengthen it
+
+    def one(f):
+        nm = f.name.split("::")[-1]
         hdr = f.header.strip("\n")
-        at = probe.find(hdr)
+        mfn = re.search(r"\bfn\s+%s\s*(<[^>]*>)?\s*\(" % re.escape(nm), text)
+        # the header spliced onto THIS function: first occurrence after its own `fn name(`
+        at = text.find(hdr, mfn.start() if mfn else 0)
         if at < 0:
-            continue
-        e = probe.find("ensures", at)
-        probe = probe[:e + len("ensures")] + "\n        false," + probe[e + len("ensures"):]
-    path = os.path.join(scratch.dir, "verus_%s_vacuity.rs" % unit_name)
-    open(path, "w").write(probe)
-    p = subprocess.run(["verus", path, "--output-json", "--time", "--rlimit", "10", "--multiple-errors", "1"],
-                       cwd=scratch.dir, stdout=subprocess.PIPE, stderr=subprocess.PIPE, text=True, errors="replace")
-    try:
-        data = json.loads(p.stdout[p.stdout.index("{"):])
-    except Exception:
+            return nm, None
+        e = text.find("ensures", at)
+        probe = text[:e + len("ensures")] + "\n        false," + text[e + len("ensures"):]
+        path = os.path.join(scratch.dir, "verus_%s_vacuity_%s.rs" % (unit_name, nm))
+        open(path, "w").write(probe)
+        p = subprocess.run(["verus", path, "--output-json", "--time", "--rlimit", "20", "--multiple-errors", "1", "--num-threads", "2"],
+                           cwd=scratch.dir, stdout=subprocess.PIPE, stderr=subprocess.PIPE, text=True, errors="replace")
+        try:
+            data = json.loads(p.stdout[p.stdout.index("{"):])
+        except Exception:
+            return nm, None
+        ok = None
+        for mod in data.get("times-ms", {}).get("smt", {}).get("smt-run-module-times", []):
+            for fb in mod.get("function-breakdown", []):
+                if fb["function"].split("::")[-1] == nm:
+                    ok = (ok if ok is not None else True) and bool(fb.get("success"))
+        return nm, ok
+    with ThreadPoolExecutor(max_workers=max(1, jobs // 2)) as ex:
+        res = list(ex.map(one, fns))
+    if any(ok is None for _, ok in res):
         return None, names
-    ok = {}
-    for mod in data.get("times-ms", {}).get("smt", {}).get("smt-run-module-times", []):
-        for fb in mod.get("function-breakdown", []):
-            nm = fb["function"].split("::")[-1]
-            if nm in names:
-                ok[nm] = ok.get(nm, True) and bool(fb.get("success"))
-    vacuous = [nm for nm in names if ok.get(nm, False)]
-    return vacuous, names
+    return [nm for nm, ok in res if ok], names
 
 
 def counterexample(scratch, ob, r, log=print):
